@@ -423,3 +423,31 @@ package core
 //@     invariant limit > 0 ==> count < limit
 //@     invariant forall j int :: {cntM(j)} 0 <= j && j <= rangeindex && old((StartKeyOf(t, input) == "" || cntS(j) >= 1) && MK(t, input, Seq(t, input.ScanIndexForward, j))) ==>
 //@                0 <= cntM(j) && cntM(j) < len(items) && fresh(items[cntM(j)]) && content(items[cntM(j)]) == old(content(t.Data[Seq(t, input.ScanIndexForward, j)]))
+
+// ---- C18: table metadata ---------------------------------------------------------------------------
+// DescribeTable reports the current number of items and one entry per secondary index, each with its own name cell,
+// the index's key schema and the index's current item count
+//@ func (*keySchema).describe
+//@   inline
+
+//@ func (*Table).IndexesDescription
+//@   requires t != nil && t.Indexes != nil && forall n string :: {t.Indexes[n]} n in t.Indexes ==> t.Indexes[n] != nil && allocated(t.Indexes[n]) && IWf(t.Indexes[n])
+//@   ensures[C18] fresh(arr(result0)) && fresh(arr(result1))
+//@   ensures[C18] forall j int :: {result0[j]} 0 <= j && j < len(result0) ==> result0[j].IndexName != nil && fresh(result0[j].IndexName) && *result0[j].IndexName in t.Indexes &&
+//@                t.Indexes[*result0[j].IndexName].typ == "global" && result0[j].ItemCount == len(t.Indexes[*result0[j].IndexName].refs)
+//@   ensures[C18] forall j int :: {result1[j]} 0 <= j && j < len(result1) ==> result1[j].IndexName != nil && fresh(result1[j].IndexName) && *result1[j].IndexName in t.Indexes &&
+//@                t.Indexes[*result1[j].IndexName].typ == "local" && result1[j].ItemCount == len(t.Indexes[*result1[j].IndexName].refs)
+//@   ensures[C18] forall a int, b int :: {result0[a], result0[b]} 0 <= a && a < b && b < len(result0) ==> result0[a].IndexName != result0[b].IndexName
+//@   ensures[C18] forall a int, b int :: {result1[a], result1[b]} 0 <= a && a < b && b < len(result1) ==> result1[a].IndexName != result1[b].IndexName
+//@   loop 1:
+//@     invariant fresh(arr(gsi)) && arr(gsi) != 0 && fresh(arr(lsi)) && arr(lsi) != 0 && arr(gsi) != arr(lsi)
+//@     invariant forall j int :: {gsi[j]} 0 <= j && j < len(gsi) ==> gsi[j].IndexName != nil && fresh(gsi[j].IndexName) && *gsi[j].IndexName in t.Indexes &&
+//@                t.Indexes[*gsi[j].IndexName].typ == "global" && gsi[j].ItemCount == len(t.Indexes[*gsi[j].IndexName].refs)
+//@     invariant forall j int :: {lsi[j]} 0 <= j && j < len(lsi) ==> lsi[j].IndexName != nil && fresh(lsi[j].IndexName) && *lsi[j].IndexName in t.Indexes &&
+//@                t.Indexes[*lsi[j].IndexName].typ == "local" && lsi[j].ItemCount == len(t.Indexes[*lsi[j].IndexName].refs)
+//@     invariant forall a int, b int :: {gsi[a], gsi[b]} 0 <= a && a < b && b < len(gsi) ==> gsi[a].IndexName != gsi[b].IndexName
+//@     invariant forall a int, b int :: {lsi[a], lsi[b]} 0 <= a && a < b && b < len(lsi) ==> lsi[a].IndexName != lsi[b].IndexName
+
+//@ func (*Table).Description
+//@   requires t != nil && t.Indexes != nil && forall n string :: {t.Indexes[n]} n in t.Indexes ==> t.Indexes[n] != nil && allocated(t.Indexes[n]) && IWf(t.Indexes[n])
+//@   ensures[C18] fresh(result) && result != nil && result.TableName == name && result.ItemCount == len(t.SortedKeys)
